@@ -108,8 +108,11 @@ def shrink(sched, sig, runner, budget_s=60.0, log=None):
                 cur = c
             else:
                 i += 1
-    # 3. drop tree files one by one
+    # 3. drop tree files one by one (except what the schedule's oracle data is derived from)
+    keep = cur.get("shrink_keep") or {}
     for p in sorted(cur.get("tree", {})):
+        if p in keep.get("tree", []):
+            continue
         c = copy.deepcopy(cur)
         del c["tree"][p]
         if ok(c):
@@ -118,7 +121,7 @@ def shrink(sched, sig, runner, budget_s=60.0, log=None):
     cur = _shrink_texts(cur, ok, t0, budget_s)
     # 5. argv
     argv = list(cur.get("argv", []))
-    i = 0
+    i = len(argv) if keep.get("argv") else 0
     while i < len(argv):
         c = copy.deepcopy(cur)
         c["argv"] = argv[:i] + argv[i + 1 :]
@@ -157,6 +160,8 @@ def _shrink_texts(cur, ok, t0, budget_s):
                 n = min(len(lines), n * 2)
 
     for p in sorted(cur.get("tree", {})):
+        if p in (cur.get("shrink_keep") or {}).get("tree", []):
+            continue
         if isinstance(cur["tree"][p], str):
             try_lines(lambda c, p=p: c["tree"][p], lambda c, v, p=p: c["tree"].__setitem__(p, v))
     for k, op in enumerate(cur["ops"]):
